@@ -9,7 +9,8 @@ import (
 )
 
 // VerifC14Custom: one custom message with a symbolic-length body and a symbolic recipient list,
-// sent by a0 into a session of four members (plus a member of another session and an unjoined connection).
+// sent by a0 into a session of three or four members (plus a member of another session and an unjoined
+// connection).
 func VerifC14Custom() {
 	w := newVWorld(0)
 	a0, a1, a2, a3 := w.newConn(), w.newConn(), w.newConn(), w.newConn()
@@ -17,11 +18,18 @@ func VerifC14Custom() {
 	a0.mustJoin("")
 	a1.mustJoin(a0.sid)
 	a2.mustJoin(a0.sid)
-	a3.mustJoin(a0.sid)
+	// a session of three or of four members; the list may be longer than the session is large
+	small := verifnd.Bool()
+	if !small {
+		a3.mustJoin(a0.sid)
+	}
 	b0.mustJoin("")
 	w.drainAll()
 
 	maxList := 3
+	if small {
+		maxList = 4
+	}
 	if verifnd.Tier() == 1 {
 		maxList = 5
 	}
@@ -56,6 +64,10 @@ func VerifC14Custom() {
 	}
 
 	for k, m := range []*vConn{a1, a2, a3} {
+		if m.pid == 0 {
+			verifnd.Assert(len(m.drain()) == 0, "C14.unjoined.silent")
+			continue
+		}
 		named := false
 		for i := range ids {
 			named = verifnd.Or(named, ids[i] == m.pid)
